@@ -74,7 +74,12 @@ class Scenario:
             def __init__(self, **kw):
                 tick("init")
                 self.__dict__.update(kw)
-        self.classes = [Node, Leaf] if user else []
+        class Model:
+            def __init__(self, **kw):
+                tick("init")
+                self.__dict__.update(kw)
+        # user == "root": the root rule has a user class as well (its attributes, _tx_parser included, are collected outside the object while loading)
+        self.classes = [Model, Node, Leaf] if user == "root" else [Node, Leaf] if user else []
         kw = {"global_repository": True} if grepo else {}
         self.mm = metamodel_from_str(GRAMMAR, classes=self.classes or None, **kw)
 
@@ -263,7 +268,7 @@ def work(arg):
 def run(ctx):
     units = []
     total = {}
-    for user in (False, True):
+    for user in (False, True, "root"):
         for two in (False, True):
             counts, pts = fault_points(user, two)
             total["user=%s two_files=%s" % (user, two)] = {"callback_calls": counts, "points": len(pts)}
